@@ -159,6 +159,12 @@ func (w *c11World) ics(r *Rec, f []string) string {
 		}
 		if okB {
 			out = "ok"
+			if w.govOff[p.addr] {
+				r.Find(Finding{Sig: "C11:converted-on-disabled-pair:ics", What: "the ICS-20 hook converted for a pair whose last committed relay toggle was OFF (the oracle's own record)", Ops: hist(), Obs: "converted", Req: "vouchers kept"})
+			}
+			if w.govModuleOff {
+				r.Find(Finding{Sig: "C11:converted-while-module-disabled:ics", What: "the ICS-20 hook converted although the last committed EnableAggregate change was OFF", Ops: hist(), Obs: "converted", Req: "vouchers kept"})
+			}
 			if !s0.enabled || !p.enabled {
 				r.Find(Finding{Sig: "C11:hook:gate", What: "the hook converted while the module or the pair is disabled", Ops: hist(), Obs: "converted", Req: "vouchers kept"})
 			}
@@ -171,6 +177,10 @@ func (w *c11World) ics(r *Rec, f []string) string {
 		}
 	}
 	r.Count("ics." + out)
+	if p.found && w.govOff[p.addr] && out == "kept" && w.offRestarts[p.addr] > 0 {
+		r.Count("convert.after-restart.refused-disabled")
+		r.Count("convert.after-restart.refused-disabled.ics")
+	}
 	switch out {
 	case "kept":
 		switch {
